@@ -864,6 +864,29 @@ func TestVerifC11(t *testing.T) {
 			wCases, wLoads, wNon, wSamples, wSelfRej, wSelfRan = c11WatchPart("VERIF_IN_WATCH", c11EnvName("VERIF_IN_WATCH_SELF"))
 		}()
 	}
+	// the real sources run in real time (refresh 1 s): in the background, like the watcher histories
+	type srcRes struct {
+		cases, loads, evals, non, skipped int64
+		samples                           []string
+		rejected                          bool
+	}
+	srcDone := map[string]chan srcRes{}
+	for _, p := range [][3]string{{"VERIF_IN_SRC_PATH", "path", ""}, {"VERIF_IN_SRC_HTTP", "http", ""}, {"VERIF_IN_SRC_SELF", "path", "self"}} {
+		if os.Getenv(p[0]) == "" {
+			continue
+		}
+		ch := make(chan srcRes, 1)
+		srcDone[p[0]] = ch
+		go func(env, source string, self bool) {
+			var r srcRes
+			r.cases, r.loads, r.evals, r.non, r.skipped, r.samples, r.rejected = c11SourcesPart(env, source, self)
+			ch <- r
+		}(p[0], p[1], p[2] != "")
+	}
+	if os.Getenv("VERIF_IN_FILE") != "" {
+		cases, evals := c11FilePart("VERIF_IN_FILE")
+		sum["file_cases"], sum["file_evals"] = cases, evals
+	}
 	if os.Getenv("VERIF_IN") != "" {
 		cases, evals, non, samples, _ := c11SelectPart("VERIF_IN", false)
 		sum["select_cases"], sum["select_evals"], sum["select_nontrivial"], sum["select_samples"] = cases, evals, non, samples
@@ -883,6 +906,19 @@ func TestVerifC11(t *testing.T) {
 		sum["watch_cases"], sum["watch_loads"], sum["watch_nontrivial"], sum["watch_samples"] = wCases, wLoads, wNon, wSamples
 		if wSelfRan {
 			sum["watch_selftest_rejected"] = wSelfRej
+		}
+	}
+	for env, ch := range srcDone {
+		r := <-ch
+		switch env {
+		case "VERIF_IN_SRC_SELF":
+			sum["source_selftest_rejected"] = r.rejected
+		default:
+			k := "path"
+			if env == "VERIF_IN_SRC_HTTP" {
+				k = "http"
+			}
+			sum[k+"_cases"], sum[k+"_loads"], sum[k+"_evals"], sum[k+"_nontrivial"], sum[k+"_skipped"], sum[k+"_samples"] = r.cases, r.loads, r.evals, r.non, r.skipped, r.samples
 		}
 	}
 	verifx.Summary(sum)
